@@ -294,11 +294,22 @@ def mutate(g, defn):
         # everything else stays reachable as before: the validator has to see the defect whatever the state is called
         free = [n for n in ODD_NAMES if n not in m["States"]]
         k = g.pick(free)
-        defect = g.pick(["dangling-next", "branch-dangling-next", "branch-name-clash", "catch-dangling-next"])
+        defect = g.pick(["dangling-next", "branch-dangling-next", "branch-name-clash", "catch-dangling-next", "catch-unusable-next", "catch-unusable-next"])
         if defect == "dangling-next":
             bad = {"Type": "Pass", "Next": "Nowhere"}
         elif defect == "catch-dangling-next":
             bad = {"Type": "Task", "Resource": BOOM, "Catch": [{"ErrorEquals": ["States.ALL"], "Next": "Nowhere"}], "Next": m["StartAt"]}
+        elif defect == "catch-unusable-next":
+            # the Catcher matches, but the transition it asks for cannot be made at all (no Next, or one that is no state name)
+            c_ = {"ErrorEquals": ["States.ALL"], "Next": g.pick(["", 5, None, [], {}, True])}
+            if g.int(0, 3) == 0:
+                del c_["Next"]
+            bad = {"Type": "Task", "Resource": BOOM, "Catch": [c_], "Next": m["StartAt"]}
+            if g.int(0, 1):
+                # ... inside a Branch, beside a Branch that has finished (its event is held for the join)
+                bad = {"Type": "Parallel", "Next": m["StartAt"], "Branches": [{"StartAt": "Zq1", "States": {"Zq1": {"Type": "Pass", "End": True}}},
+                                                                                {"StartAt": "Zq2", "States": {"Zq2": dict(bad, End=True)}}]}
+                bad["Branches"][1]["States"]["Zq2"].pop("Next")
         elif defect == "branch-dangling-next":
             bad = {"Type": "Parallel", "Branches": [{"StartAt": "Zq1", "States": {"Zq1": {"Type": "Pass", "Next": "Nowhere"}}}], "Next": m["StartAt"]}
         else:
@@ -685,6 +696,29 @@ def main(tier, seed, replay=None):
         camp.write_evidence = False
         return camp.finish()
     camp.run_witnesses(replay_case)
+    # directed poison definitions (rare in the random mutants): a failure is caught, but the transition its Catcher asks for cannot be made at all, at the top level and
+    # inside a Branch beside a Branch that has already finished; the execution has to end FAILED with nothing held back
+    for nxt in ("", 5, None, [], "__missing__"):
+        for where in ("top", "branch"):
+            for typ in ("STANDARD", "EXPRESS"):
+                c_ = {"ErrorEquals": ["States.ALL"], "Next": nxt}
+                if nxt == "__missing__":
+                    del c_["Next"]
+                t_ = {"Type": "Task", "Resource": BOOM, "Catch": [c_]}
+                if where == "top":
+                    d_ = {"StartAt": "T", "States": {"T": dict(t_, Next="P"), "P": {"Type": "Pass", "End": True}}}
+                else:
+                    d_ = {"StartAt": "Par", "States": {"Par": {"Type": "Parallel", "End": True, "Branches": [{"StartAt": "A", "States": {"A": {"Type": "Pass", "End": True}}},
+                                                                                                        {"StartAt": "T", "States": {"T": dict(t_, End=True)}}]}}}
+                sc = {"family": "C", "kind": "definition", "value": d_, "labels": ["directed:catch-unusable-next:" + where], "schedule": [], "type": typ}
+                try:
+                    fails_, classes_, _nt = run_scenario(sc)
+                except Exception as e:
+                    camp.harness_error("directed poison definition crashed the harness: %r" % (e,))
+                    continue
+                camp.case(sc, nontrivial=True, classes=["directed"] + list(classes_))
+                for b, d in fails_:
+                    camp.fail(b, sc, d)
     from .. import fuzz
     if tier == "thorough":
         run_shards(camp, __name__, "shard", 16, examples=2500)
